@@ -123,6 +123,24 @@ package proxy
 //     reach it. A pool that never asks the registered driver at all is expected
 //     to serve what the registry holds at that moment (probe
 //     c04.pool_created_without_listing, never reached on the unchanged tree).
+//   * fifth round, ordinary but unexplored configurations:
+//     - pools WITHOUT serverTags on a discovered service (NoTags, 5%). Two
+//       readings ("none qualifies" = static list / "no selector" = every
+//       instance): the generation's list is the union, fairness / zero-weight
+//       rules are not applied to it, a no-server failure is accepted iff the
+//       static list is empty. What easegress does is recorded by the probes
+//       c04.no_server_tags.* (observation: it never uses a discovered instance).
+//     - static server URL shapes: host:port, IPv6 literal with / without port,
+//       IPv4 without port, https; discovered instances with IPv6 addresses
+//       (URLs are compared modulo brackets, c04Norm) and weights above 100.
+//     - client key shapes: IPv6 clients, X-Forwarded-For chains (client, proxies),
+//       X-Real-Ip together with X-Forwarded-For; "equal key" stays the equal
+//       (remote IP, X-Real-Ip, X-Forwarded-For) triple.
+//     - the registry DRIVER's life cycle: registered only after the pools exist
+//       (start-up order: a pool created meanwhile is on its static list, nothing
+//       has been reported), and deregistered + registered again mid-run (a
+//       driver reload; the controller's farewell listing is a report like any
+//       other). While no driver is registered the registry changes silently.
 //   * who asks the fake driver for a listing is read from the call stack
 //     (watchServers = synchronous first listing, NewServiceWatcher = initial
 //     event, _handleRegistryEvent = report for a notification); only the last
@@ -157,6 +175,7 @@ package proxy
 
 import (
 	"fmt"
+	"net"
 	"net/http"
 	"runtime"
 	"sort"
@@ -177,11 +196,37 @@ import (
 	"verif/simkit/sim"
 )
 
+// Generator switches (all ON: nothing of this round fires on the unchanged tree).
+const (
+	// discovery instances with IPv6 addresses. ServiceInstanceSpec.URL() does not
+	// bracket the address ("http://fd00::5:9000"); Go's client still reaches the
+	// instance (Hostname()/Port() split at the last colon), so server identity is
+	// compared modulo brackets (c04Norm) and the malformed authority is only a
+	// probe (c04.ipv6_instance_url_without_brackets).
+	c04GenIPv6Instances = true
+)
+
+// c04Norm makes server URLs comparable whether or not an IPv6 address is bracketed.
+func c04Norm(u string) string {
+	if strings.IndexByte(u, '[') < 0 {
+		return u
+	}
+	return strings.NewReplacer("[", "", "]", "").Replace(u)
+}
+
 // ---- scenario ---------------------------------------------------------------
 
 type c04Srv struct {
-	Host   string `json:"host"` // URL = "http://" + Host
+	Host   string `json:"host"`             // URL = scheme + "://" + Host
+	Scheme string `json:"scheme,omitempty"` // "" = http
 	Weight int    `json:"weight"`
+}
+
+func c04SrvURL(sv c04Srv) string {
+	if sv.Scheme == "https" {
+		return "https://" + sv.Host
+	}
+	return "http://" + sv.Host
 }
 
 type c04Inst struct {
@@ -217,6 +262,7 @@ type c04Reload struct {
 	GapUs  int64 `json:"gap_us"`
 	Slot   int   `json:"slot"`
 	HoldUs int64 `json:"hold_us"` // between publishing the new generation and closing the old one: -1 nothing, 0 gate, >0 sleep
+	Rereg  bool  `json:"rereg"`   // not a pool reload but a reload of the registry DRIVER object: it is deregistered from the ServiceRegistry controller, hold_us later registered again
 	Gap    bool  `json:"gap"`     // the other order (pipeline deleted and created again later / pool removed and re-added): the old generation is closed FIRST, the slot has no pool for hold_us, then the next generation is created
 }
 
@@ -252,6 +298,9 @@ type c04Scenario struct {
 	Pool2Tags   []string      `json:"pool2_tags"`  // its serverTags (empty: same as the main pool's)
 	Reloads     []c04Reload   `json:"reloads"`     // watcher mode: hot reloads (new pool generation created, then the old one closed)
 	ListFail    []int         `json:"list_fail"`   // watcher mode, fault: ordinals of the registry driver's listings that answer with an error
+	NoTags      bool          `json:"no_tags"`     // the pools have no serverTags at all (and the static servers no tags)
+	LateReg     bool          `json:"late_reg"`    // watcher mode, start-up order: the pools are created before the registry driver is registered with the controller; it registers late_us after the start
+	LateUs      int64         `json:"late_us"`
 }
 
 func c04Gen(rng *sim.Rand, tier string) interface{} {
@@ -291,11 +340,28 @@ func c04Gen(rng *sim.Rand, tier string) interface{} {
 		zeroAll = rng.Bool(0.06)
 	}
 	equalW := rng.Pick(0, 0, 1, 10, 100)
-	hostNames := rng.Bool(0.2)
+	hostNames := rng.Bool(0.3)
+	shapes := rng.Pick(0, 0, 0, 1, 2, 3, 4, 5, 5)
 	for i := 0; i < nStatic; i++ {
 		s := c04Srv{Host: fmt.Sprintf("10.1.0.%d:8080", i+1)}
 		if hostNames {
 			s.Host = fmt.Sprintf("backend-%d.example.com", i+1)
+			// other ordinary URL shapes: host name with a port, IPv6 literal with and
+			// without a port, IPv4 without a port, https
+			switch shapes {
+			case 1:
+				s.Host = fmt.Sprintf("backend-%d.example.com:8443", i+1)
+				s.Scheme = "https"
+			case 2:
+				s.Host = fmt.Sprintf("[fd00:1::%x]:8080", i+1)
+			case 3:
+				s.Host = fmt.Sprintf("[fd00:1::%x]", i+1)
+			case 4:
+				s.Host = fmt.Sprintf("10.1.1.%d", i+1)
+			case 5:
+				s.Host = rng.PickStr(fmt.Sprintf("backend-%d.example.com:8080", i+1), fmt.Sprintf("[fd00:1::%x]:8080", i+1), fmt.Sprintf("10.1.1.%d", i+1), fmt.Sprintf("backend-%d.example.com", i+1))
+				s.Scheme = rng.PickStr("", "", "https")
+			}
 		}
 		switch {
 		case zeroAll:
@@ -348,9 +414,15 @@ func c04Gen(rng *sim.Rand, tier string) interface{} {
 			p int
 		}
 		var universe []addr
+		v6 := c04GenIPv6Instances && rng.Bool(0.08)
 		for i := 1; i <= 6; i++ {
+			if v6 && i%2 == 1 {
+				universe = append(universe, addr{fmt.Sprintf("fd00:3::%x", i), 9000})
+				continue
+			}
 			universe = append(universe, addr{fmt.Sprintf("10.3.0.%d", i), 9000})
 		}
+		bigW := rng.Bool(0.1) // registries are not bound to the 0..100 range of the static spec
 		if !hostNames {
 			for i := 0; i < nStatic && i < 3; i++ {
 				universe = append(universe, addr{fmt.Sprintf("10.1.0.%d", i+1), 8080})
@@ -408,6 +480,9 @@ func c04Gen(rng *sim.Rand, tier string) interface{} {
 					}
 				} else {
 					in.Addr, in.Port = fmt.Sprintf("10.2.%d.%d", uid+2, j+1), 9000+j
+					if v6 && j%2 == 1 {
+						in.Addr = fmt.Sprintf("fd00:2:%x::%x", uid+2, j+1)
+					}
 				}
 				match := rng.Intn(100) < pMatch
 				if match {
@@ -432,6 +507,9 @@ func c04Gen(rng *sim.Rand, tier string) interface{} {
 					}
 				default:
 					in.Weight = rng.Pick(0, 0, 1, 10, rng.Range(0, 100))
+				}
+				if bigW && in.Weight > 0 && rng.Bool(0.5) {
+					in.Weight = rng.Pick(101, 1000, 65535, 1000000)
 				}
 				if match {
 					if firstMatch < 0 {
@@ -464,6 +542,7 @@ func c04Gen(rng *sim.Rand, tier string) interface{} {
 			}
 			sc.Updaters[t].Updates = append(sc.Updaters[t].Updates, u)
 		}
+		sc.NoTags = rng.Bool(0.05)
 		if sc.Watcher {
 			if rng.Bool(0.3) {
 				for t := range sc.Updaters {
@@ -487,6 +566,9 @@ func c04Gen(rng *sim.Rand, tier string) interface{} {
 					}
 				}
 			}
+			if rng.Bool(0.08) {
+				sc.LateReg, sc.LateUs = true, int64(rng.Pick(0, 10, 300, 2000))
+			}
 			if rng.Bool(0.55) {
 				nRel := rng.Pick(1, 2, 2, 3, 3, 4)
 				for i := 0; i < nRel; i++ {
@@ -499,6 +581,8 @@ func c04Gen(rng *sim.Rand, tier string) interface{} {
 					}
 					if rng.Bool(0.35) {
 						rl.Gap, rl.HoldUs = true, int64(rng.Pick(0, 0, 10, 200, 1000, 3000))
+					} else if rng.Bool(0.2) {
+						rl.Rereg, rl.HoldUs = true, int64(rng.Pick(-1, 0, 10, 200, 1000))
 					}
 					sc.Reloads = append(sc.Reloads, rl)
 				}
@@ -518,7 +602,8 @@ func c04Gen(rng *sim.Rand, tier string) interface{} {
 	}
 	nIP := rng.Range(2, 6)
 	nHdr := rng.Range(2, 5)
-	mode := rng.PickStr("remote", "remote", "xreal", "xff")
+	mode := rng.PickStr("remote", "remote", "xreal", "xff", "xffchain", "both")
+	v6Clients := rng.Bool(0.15)
 	dense := rng.Bool(0.4)
 	mirrorPct := rng.Pick(0, 0, 0, 10, 30)
 	holdy := rng.Bool(0.5)
@@ -527,9 +612,12 @@ func c04Gen(rng *sim.Rand, tier string) interface{} {
 		for i := 0; i < per; i++ {
 			op := c04Op{Mode: mode, Port: rng.Range(1024, 65000), HoldUs: -1}
 			if rng.Bool(0.1) {
-				op.Mode = rng.PickStr("remote", "xreal", "xff")
+				op.Mode = rng.PickStr("remote", "xreal", "xff", "xffchain", "both")
 			}
 			op.IP = fmt.Sprintf("203.0.113.%d", 1+rng.Intn(nIP))
+			if v6Clients && rng.Bool(0.7) {
+				op.IP = fmt.Sprintf("2001:db8::%x", 1+rng.Intn(nIP))
+			}
 			if !dense {
 				op.GapUs = int64(rng.Pick(0, 0, 0, 1, 10, 100, 1000))
 			}
@@ -632,7 +720,7 @@ func c04InstURL(in c04Inst) string {
 	if scheme == "" {
 		scheme = "http"
 	}
-	return fmt.Sprintf("%s://%s:%d", scheme, in.Addr, in.Port)
+	return c04Norm(fmt.Sprintf("%s://%s", scheme, net.JoinHostPort(in.Addr, fmt.Sprint(in.Port))))
 }
 
 type c04Generation struct {
@@ -643,6 +731,7 @@ type c04Generation struct {
 	fifo       int           // watcher mode: position of the report in the pool's event queue (applied in this order by one goroutine); -1 otherwise
 	bornT      time.Duration // watcher mode: virtual time at which the report was made
 	optional   bool          // reported while the pool was being closed: may or may not have been applied
+	loose      bool          // pool without serverTags: the list is the union of both readings
 	// probes only: relation to the report before it / to the pool's history
 	weightOnly, tagOnly, afterReload bool
 	sameAs                           *c04Generation // the report before it defined the identical list (same URLs, same weights)
@@ -679,6 +768,11 @@ type c04Model struct {
 	tags   []string
 	static map[string]int
 	gens   []*c04Generation
+	// loose: the pool has no serverTags. "The tagged instances" then reads either
+	// as "none qualifies" (static list) or as "no selector = every instance";
+	// both are accepted: a generation's list is the union, and only the rules
+	// that hold under both readings are applied to it.
+	loose bool
 }
 
 const (
@@ -702,7 +796,7 @@ type c04Pool struct {
 }
 
 func (m *c04Model) newGen(src string, list map[string]int, start int) *c04Generation {
-	g := &c04Generation{id: len(m.gens), start: start, src: src, weight: list, n: len(list), fifo: -1,
+	g := &c04Generation{id: len(m.gens), start: start, src: src, weight: list, n: len(list), fifo: -1, loose: m.loose && src != "static",
 		sure: map[string]int{}, maybe: map[string]int{}, sticky: map[string]string{}}
 	for _, w := range list {
 		g.total += w
@@ -714,6 +808,18 @@ func (m *c04Model) newGen(src string, list map[string]int, start int) *c04Genera
 // listFor is the reference for useService: tagged instances, else static list.
 func (m *c04Model) listFor(insts []c04Inst) (map[string]int, string) {
 	list := map[string]int{}
+	if m.loose {
+		for u, w := range m.static {
+			list[u] = w
+		}
+		for _, in := range insts {
+			list[c04InstURL(in)] = in.Weight
+		}
+		if len(insts) == 0 {
+			return list, "either-static"
+		}
+		return list, "either"
+	}
 	for _, in := range insts {
 		if c04Tagged(m.tags, in.Tags) {
 			list[c04InstURL(in)] = in.Weight
@@ -827,6 +933,12 @@ func c04ListKind() string {
 		case strings.HasSuffix(f.Function, ").NewServiceWatcher"):
 			return "initial"
 		case strings.HasSuffix(f.Function, ")._handleRegistryEvent"):
+			for more {
+				f, more = frames.Next()
+				if strings.HasSuffix(f.Function, ").DeregisterRegistry") {
+					return "clean" // the report the controller makes when the driver is deregistered
+				}
+			}
 			return "dispatch"
 		case strings.HasSuffix(f.Function, ").watchServers"):
 			return "sync"
@@ -944,8 +1056,9 @@ func c04Exec(r *sim.Run, sci interface{}) {
 	}
 	updaters := sc.Updaters
 	watcher := sc.Watcher
-	if len(sc.ServerTags) == 0 {
-		updaters = nil // "no selector tags" has two readings: discovery is not exercised then
+	noTags := sc.NoTags
+	if len(sc.ServerTags) == 0 && !noTags {
+		updaters = nil // a shrunk scenario: instances were generated for tags that are gone
 		watcher = false
 	}
 	if watcher && sc.ServiceName == "" {
@@ -962,10 +1075,13 @@ func c04Exec(r *sim.Run, sci interface{}) {
 	}
 	nSlots := 1
 	slotTags := [][]string{sc.ServerTags, sc.ServerTags}
+	if noTags {
+		slotTags = [][]string{nil, nil}
+	}
 	reloads := sc.Reloads
 	if watcher && sc.SecondPool {
 		nSlots = 2
-		if len(sc.Pool2Tags) > 0 {
+		if len(sc.Pool2Tags) > 0 && !noTags {
 			slotTags[1] = sc.Pool2Tags
 		}
 	}
@@ -983,7 +1099,7 @@ func c04Exec(r *sim.Run, sci interface{}) {
 	// --- system under test
 	static := map[string]int{}
 	for _, s := range sc.Static {
-		url := "http://" + s.Host
+		url := c04Norm(c04SrvURL(s))
 		if _, dup := static[url]; dup || s.Host == "" || s.Weight < 0 {
 			return
 		}
@@ -995,7 +1111,7 @@ func c04Exec(r *sim.Run, sci interface{}) {
 			spec.LoadBalance = &LoadBalanceSpec{Policy: policy, HeaderHashKey: sc.HashKey}
 		}
 		for _, s := range sc.Static {
-			spec.Servers = append(spec.Servers, &Server{URL: "http://" + s.Host, Weight: s.Weight, Tags: append([]string(nil), slotTags[slot]...)})
+			spec.Servers = append(spec.Servers, &Server{URL: c04SrvURL(s), Weight: s.Weight, Tags: append([]string(nil), slotTags[slot]...)})
 		}
 		if sc.Retry != nil {
 			spec.RetryPolicy = "c04retry"
@@ -1048,7 +1164,7 @@ func c04Exec(r *sim.Run, sci interface{}) {
 			return
 		}
 		for _, g := range p.model.gens {
-			if g.n == 0 {
+			if g.n == 0 || g.loose {
 				continue
 			}
 			maxSure, minAll := 0, int(^uint(0)>>1)
@@ -1089,7 +1205,10 @@ func c04Exec(r *sim.Run, sci interface{}) {
 		if st == nil {
 			r.Violate("C04.other", "transport called for unknown request %s", hr.URL.String())
 		} else {
-			url := hr.URL.Scheme + "://" + hr.URL.Host
+			url := c04Norm(hr.URL.Scheme + "://" + hr.URL.Host)
+			if strings.Count(hr.URL.Host, ":") > 1 && !strings.Contains(hr.URL.Host, "[") {
+				r.Probe("c04.ipv6_instance_url_without_brackets")
+			}
 			attempt := len(st.fwd)
 			st.fwd = append(st.fwd, url)
 			hold = st.hold
@@ -1124,6 +1243,7 @@ func c04Exec(r *sim.Run, sci interface{}) {
 	var fake *c04Registry
 	var sreg *serviceregistry.ServiceRegistry
 	var creating *c04Pool // the pool whose NewServerPool is running (creations never overlap)
+	registered := false   // the registry driver is registered with the ServiceRegistry controller
 	px := &Proxy{spec: &Spec{}}
 	reportProbes := func(g *c04Generation, nUsed int) {
 		switch {
@@ -1289,8 +1409,12 @@ func c04Exec(r *sim.Run, sci interface{}) {
 				note("%s:report%d:gen%d(%s,n=%d)@%d", p.name, g.fifo, g.id, src, g.n, g.start)
 				r.Eventf("%s initial event gen%d %s n=%d total=%d", p.name, g.id, src, g.n, g.total)
 				reportProbes(g, len(insts))
-			case "dispatch":
-				dispatched++
+			case "dispatch", "clean":
+				if kind == "dispatch" {
+					dispatched++
+				} else {
+					r.Probe("c04.report_on_driver_deregistration")
+				}
 				e := stamp()
 				nTo := 0
 				for _, p := range pools {
@@ -1354,9 +1478,12 @@ func c04Exec(r *sim.Run, sci interface{}) {
 				r.Eventf("dispatch %d failed", dispatched)
 			}
 		}
-		if err := sreg.RegisterRegistry(fake); err != nil {
-			r.Violate("C04.other", "harness: RegisterRegistry: %v", err)
-			return
+		if !sc.LateReg {
+			if err := sreg.RegisterRegistry(fake); err != nil {
+				r.Violate("C04.other", "harness: RegisterRegistry: %v", err)
+				return
+			}
+			registered = true
 		}
 		var sys sync.Map
 		sys.Store(serviceregistry.Kind, ent)
@@ -1388,7 +1515,9 @@ func c04Exec(r *sim.Run, sci interface{}) {
 					close(p.sp.done)
 				}
 			}
-			sreg.DeregisterRegistry("c04reg")
+			if registered {
+				sreg.DeregisterRegistry("c04reg")
+			}
 		}()
 	}
 	defer cleanup(false)
@@ -1396,7 +1525,7 @@ func c04Exec(r *sim.Run, sci interface{}) {
 	nGen := make([]int, nSlots)
 	// newPool creates the next generation of a slot's pool (not published yet).
 	newPool := func(slot int) *c04Pool {
-		p := &c04Pool{name: fmt.Sprintf("p%d.%d", slot, nGen[slot]), slot: slot, gen: nGen[slot], model: &c04Model{tags: slotTags[slot], static: static}}
+		p := &c04Pool{name: fmt.Sprintf("p%d.%d", slot, nGen[slot]), slot: slot, gen: nGen[slot], model: &c04Model{tags: slotTags[slot], static: static, loose: noTags}}
 		nGen[slot]++
 		pools = append(pools, p)
 		spec := buildSpec(slot)
@@ -1435,12 +1564,22 @@ func c04Exec(r *sim.Run, sci interface{}) {
 			// the pool never asked the registered registry driver for the instances:
 			// by the statement (and doc: serviceRegistry + serviceName name where the
 			// servers come from) its list still has to be what the registry holds now
-			list, src := p.model.listFor(fake.cur)
-			g := p.model.newGen(src, list, 0)
-			g.installed, g.bornT = true, r.Now()
-			note("%s:no-listing:gen%d(%s,n=%d)=registry-state", p.name, g.id, src, g.n)
-			r.Eventf("%s created without any listing", p.name)
-			r.Probe("c04.pool_created_without_listing")
+			if !registered {
+				// no registry driver is registered: nothing has been reported, the
+				// pool is on its static list until the first report reaches it
+				g := p.model.newGen("fallback", static, 0)
+				g.installed, g.bornT = true, r.Now()
+				note("%s:no-driver:gen%d(static,n=%d)", p.name, g.id, g.n)
+				r.Eventf("%s created while no registry driver is registered", p.name)
+				r.Probe("c04.pool_created_while_driver_unregistered")
+			} else {
+				list, src := p.model.listFor(fake.cur)
+				g := p.model.newGen(src, list, 0)
+				g.installed, g.bornT = true, r.Now()
+				note("%s:no-listing:gen%d(%s,n=%d)=registry-state", p.name, g.id, src, g.n)
+				r.Eventf("%s created without any listing", p.name)
+				r.Probe("c04.pool_created_without_listing")
+			}
 		}
 		// from here on the pool has to follow every report for its service,
 		// whether or not the harness saw it register a watcher
@@ -1533,7 +1672,7 @@ func c04Exec(r *sim.Run, sci interface{}) {
 				continue
 			}
 			inList = true
-			if weighted && w == 0 && g.total > 0 {
+			if weighted && w == 0 && g.total > 0 && !g.loose {
 				continue
 			}
 			expl = append(expl, g)
@@ -1558,6 +1697,13 @@ func c04Exec(r *sim.Run, sci interface{}) {
 		g := expl[0]
 		g.sure[url]++
 		g.k++
+		if g.loose && g.src == "either" {
+			if _, isStatic := st.pool.model.static[url]; isStatic {
+				r.Probe("c04.no_server_tags.static_server_chosen_although_instances_reported")
+			} else {
+				r.Probe("c04.no_server_tags.discovered_instance_chosen")
+			}
+		}
 		if len(cands) == 1 {
 			if g.weightOnly {
 				weightOnlyServed = true
@@ -1578,7 +1724,7 @@ func c04Exec(r *sim.Run, sci interface{}) {
 				}
 			}
 		}
-		if weighted && g.total > 0 {
+		if weighted && g.total > 0 && !g.loose {
 			for _, w := range g.weight {
 				if w == 0 {
 					zeroWeightMember = true
@@ -1626,7 +1772,7 @@ func c04Exec(r *sim.Run, sci interface{}) {
 			note("%s=panic@%d", st.name, e)
 			r.Eventf("%s panic", st.name)
 			for _, g := range cands {
-				if weighted && g.n > 0 && g.total == 0 && nT == 0 {
+				if weighted && g.n > 0 && g.total == 0 && nT == 0 && !g.loose {
 					origin := "static"
 					if g.src == "discovery" {
 						origin = "discovery"
@@ -1670,6 +1816,13 @@ func c04Exec(r *sim.Run, sci interface{}) {
 				if g.n == 0 {
 					ok = true
 				}
+				if g.loose && len(static) == 0 {
+					// reading "none qualifies": the (empty) static list is the current one
+					ok = true
+					if g.src == "either" {
+						r.Probe("c04.no_server_tags.request_failed_although_instances_reported")
+					}
+				}
 			}
 			if !ok {
 				r.Violate("C04.no-server-but-list-nonempty", "request %s (pool %s) [%d,%d] was not forwarded (result %q, status %d, mirror=%v, max attempts %d) although no list current during its last attempt was empty; candidates:%s\nhistory: %s",
@@ -1698,8 +1851,12 @@ func c04Exec(r *sim.Run, sci interface{}) {
 			remote, xreal = "10.9.9.9", ip
 		case "xff":
 			remote, xff = "10.9.9.9", ip
+		case "xffchain": // the client, then the proxies the request came through
+			remote, xff = "10.9.9.9", ip+", 198.51.100.7, 10.0.0.3"
+		case "both":
+			remote, xreal, xff = "10.9.9.9", ip, ip+", 10.0.0.3"
 		}
-		stdr.RemoteAddr = fmt.Sprintf("%s:%d", remote, op.Port)
+		stdr.RemoteAddr = net.JoinHostPort(remote, fmt.Sprint(op.Port))
 		if xreal != "" {
 			stdr.Header.Set("X-Real-Ip", xreal)
 		}
@@ -1833,7 +1990,11 @@ func c04Exec(r *sim.Run, sci interface{}) {
 						return
 					}
 					used := c04Usable(u.Insts)
-					if c04Watching(pools) == 0 {
+					if c04Watching(pools) == 0 || !registered {
+						if !registered {
+							r.Probe("c04.registry_changed_while_driver_unregistered")
+						}
+						// no driver is registered (it cannot notify anybody), or
 						// nobody watches the service at the moment (its only pool was closed and
 						// is not re-created yet): the registry's state changes, and whether the
 						// controller would still turn a notification into a report is open, so
@@ -1926,8 +2087,23 @@ func c04Exec(r *sim.Run, sci interface{}) {
 			}
 		})
 	}
-	if len(reloads) > 0 {
+	if len(reloads) > 0 || (watcher && sc.LateReg) {
 		r.Go("life", func() {
+			if !registered {
+				// start-up order: the driver registers after the pools were created
+				r.Sleep(time.Duration(sc.LateUs) * time.Microsecond)
+				if r.Violated() || r.Aborted() || cleaned {
+					return
+				}
+				if err := sreg.RegisterRegistry(fake); err != nil {
+					r.Violate("C04.other", "harness: late RegisterRegistry: %v", err)
+					return
+				}
+				registered = true
+				note("driver-registered@%d", stamp())
+				r.Eventf("registry driver registered late")
+				r.Probe("c04.driver_registered_after_pools")
+			}
 			for k, rl := range reloads {
 				if r.Violated() || r.Aborted() {
 					return
@@ -1939,6 +2115,47 @@ func c04Exec(r *sim.Run, sci interface{}) {
 				slot := rl.Slot
 				if slot < 0 || slot >= nSlots {
 					slot = 0
+				}
+				if rl.Rereg {
+					// the driver object is reloaded; like the close-first reload only once
+					// the registry has caught up with the notifications already sent
+					for i := 0; i < 50 && len(sentT) > dispatched && !r.Violated() && !r.Aborted(); i++ {
+						r.Sleep(20 * time.Microsecond)
+					}
+					if len(sentT) > dispatched || r.Violated() || r.Aborted() || cleaned || !registered {
+						continue
+					}
+					registered = false
+					note("rereg%d:deregister@%d", k, stamp())
+					r.Eventf("reload %d: registry driver deregistered", k)
+					var pnc interface{}
+					var derr, rerr error
+					func() {
+						defer func() {
+							if x := recover(); x != nil {
+								pnc = x
+							}
+						}()
+						derr = sreg.DeregisterRegistry("c04reg")
+						if rl.HoldUs >= 0 {
+							r.Sleep(time.Duration(rl.HoldUs) * time.Microsecond)
+						}
+						if !cleaned {
+							rerr = sreg.RegisterRegistry(fake)
+						}
+					}()
+					if pnc != nil || derr != nil || rerr != nil {
+						r.Violate("C04.other", "reloading the registry driver: panic %v, deregister error %v, register error %v\nhistory: %s", pnc, derr, rerr, history())
+						return
+					}
+					if cleaned {
+						return
+					}
+					registered = true
+					note("rereg%d:registered@%d", k, stamp())
+					r.Eventf("reload %d: registry driver registered again", k)
+					r.Probe("c04.driver_reregistered")
+					continue
 				}
 				old := slots[slot]
 				if old == nil {
@@ -2228,7 +2445,7 @@ func TestVerifC04(t *testing.T) {
 		MaxSteps: 30000,
 		Rule: "scenario = drawn policy (5 policies + omitted), static list of 0-8 servers (weights all zero / equal / distinct), 0-4 discovery updates (0-8 instances, tagged or not, weights incl. zero, addresses fresh or shared between versions) issued by 1-2 updater tasks, " +
 			"and 1-6 selector tasks issuing 4-200 requests (client IP by RemoteAddr/X-Real-Ip/X-Forwarded-For, hash header, mirror flag, hold inside the transport); " +
-			"25% of the scenarios put a Retry policy (2-4 attempts, 1-20 ms wait) on the pool and script 1..max failing transport calls per request with list replacements landing between attempts; 45% of the discovery scenarios are report sequences that keep the instance URLs and change only weights (to/from 0) and tags (instances losing/gaining a serverTag); 42% of the discovery scenarios feed the instance maps through the real ServiceRegistry (Replace or incremental Apply/Delete notifications, bursts of back-to-back notifications, scripted listing errors) and the pools' own watchServers goroutines, of these 35% with a second pool watching the same service and 55% with 1-4 hot reloads (next pool generation created and published, then the old one closed; 35% of them in the other order: old one closed, gap with no pool, next one created) interleaved with the reports; two requests per slot are issued after quiescence; " +
+			"25% of the scenarios put a Retry policy (2-4 attempts, 1-20 ms wait) on the pool and script 1..max failing transport calls per request with list replacements landing between attempts; 45% of the discovery scenarios are report sequences that keep the instance URLs and change only weights (to/from 0) and tags (instances losing/gaining a serverTag); 42% of the discovery scenarios feed the instance maps through the real ServiceRegistry (Replace or incremental Apply/Delete notifications, bursts of back-to-back notifications, scripted listing errors) and the pools' own watchServers goroutines, of these 35% with a second pool watching the same service and 55% with 1-4 hot reloads (next pool generation created and published, then the old one closed; 35% of them in the other order: old one closed, gap with no pool, next one created) interleaved with the reports, 8% with the registry driver registered only after the pools exist and 11% of the lifecycle steps a deregister/re-register of the driver; 5% of the discovery scenarios have pools without serverTags; static URLs are IPv4:port, host names with/without port, IPv6 literals, https; instances may have IPv6 addresses and weights up to 10^6; clients are IPv4/IPv6 behind RemoteAddr, X-Real-Ip, X-Forwarded-For (also chains, also both headers); two requests per slot are issued after quiescence; " +
 			"non-trivial = a policy rule was really exercised (a retry attempt forwarded after a list replacement, roundRobin fairness on a list of >=2 servers with k>=n, a repeated hash key on >=2 servers, a weighted choice with a zero-weight member, a no-server failure on an empty list, or two generations that both served requests); " +
 			"distinct = distinct (policy, generation shapes, start/end/outcome event order) signatures",
 		Real: []string{"pkg/filters/proxy ServerPool (NewServerPool, createLoadBalancer, useService, handle, doHandle, handleMirror, buildResponse)", "pkg/filters/proxy five LoadBalancer implementations + NewLoadBalancer", "ServerPoolSpec.Validate", "ServerPool.watchServers + its goroutine, ServerPool.close, InjectResiliencePolicy (several pool objects per run: two slots, successive generations)", "pkg/resilience RetryPolicy (NewPolicy, Wrap)", "pkg/object/serviceregistry ServiceRegistry (RegisterRegistry, watchRegistry, NewServiceWatcher, serviceWatcher.Stop, dispatch of Replace/Apply/Delete events to all watchers of the service, ListServiceInstances)", "pkg/context, pkg/protocols/httpprot request/response objects"},
@@ -2244,6 +2461,9 @@ func TestVerifC04(t *testing.T) {
 			"a pool object has to follow every report made from the moment its own watcher exists (at the latest from the return of NewServerPool) until close() is called; reports made while close() runs may or may not be applied; a request is judged against the pool generation that was published when it started",
 			"a report is in force in every watching pool once virtual time has passed after it without a scheduler stall; a notification sent at an earlier virtual instant must have become a report by then (C04.discovery-report-lost otherwise); at most 8 notifications per run (a watcher queue holds 10 events)",
 			"close-then-create reloads start only after every notification already sent has been reported; while no pool watches the service the registry state changes without notification; a pool that did not ask the registered driver at creation is expected to serve the registry's current instances",
+			"pools without serverTags: both readings (static list only / every reported instance) are accepted, the list is their union, fairness and zero-weight rules are not applied, a no-server failure is accepted iff the static list is empty",
+			"server identity is scheme://host:port compared modulo the brackets of an IPv6 literal (ServiceInstanceSpec.URL() does not bracket; Go's client still reaches the instance)",
+			"while no registry driver is registered nothing can be reported: a pool created then is on its static list; deregistering the driver starts only after all notifications sent so far were reported; the controller's listing at deregistration is a report",
 			"a failed listing is no report: synchronous first listing failed = static list, listing for a notification failed = every pool keeps the list reported last",
 			"ipHash/headerHash stickiness is asserted within one report's balancer generation only; a key that moves after a report repeating the identical list is recorded as a probe, not a violation",
 		},
